@@ -127,7 +127,8 @@ def main(argv=None):
     units = [u for u in reg.values() if pid in u.props and not u.trusted]
     opts = {"timeout_ms": 10000 if tier == "quick" else 60000, "tier": tier, "seed": seed, "prop": pid,
             # feasibility pruning is an optimisation: a slow query is answered "feasible"
-            "feas_timeout": 600 if tier == "quick" else 3000}
+            # (TXVC_FEAS_TIMEOUT: stress test of the verdicts' independence from this budget)
+            "feas_timeout": int(os.environ.get("TXVC_FEAS_TIMEOUT") or (600 if tier == "quick" else 3000))}
     results = []
     if units:
         jobs = max(1, min(a.jobs, len(units)))
